@@ -3,6 +3,7 @@ import FancyModel.Lemmas.Sim2Deleg
 import FancyModel.Lemmas.S3Glue
 import FancyModel.Spec.Stage
 import FancyModel.Lemmas.Linear
+import FancyModel.Lemmas.Sim2BehindAlt
 /-!
 # The compiler emits simulating code, delegation included (engine refinement, stage S3)
 
@@ -270,6 +271,112 @@ theorem sizeOf_drop_le (es : List Expr) (k : Nat) : sizeOf (es.drop k) ≤ sizeO
       have := ih k
       simp only [List.drop_succ_cons, List.cons.sizeOf_spec]
       omega
+
+/-! ## Look-behind layouts around an already simulated body -/
+
+theorem s3ok_easy (br : Nat → Bool) (e : Expr) (h : isHard br e = false) : s3ok br e false = true := by
+  rw [s3ok.eq_def]; simp [h]
+
+theorem s3okAlts_easy (br : Nat → Bool) : ∀ (es : List Expr), isHardAny br es = false → s3okAlts br es false = true
+  | [], _ => by simp [s3okAlts]
+  | e :: es, h => by
+    simp only [isHardAny, Bool.or_eq_false_iff] at h
+    simp only [s3okAlts, Bool.and_eq_true]
+    exact ⟨s3ok_easy br e h.1, s3okAlts_easy br es h.2⟩
+
+/-- an alternation that is fine in a non-hard context has alternatives that are (whether it is handed
+    over whole or compiled alternative by alternative) -/
+theorem s3ok_alt_alts (br : Nat → Bool) (es : List Expr) (h : s3ok br (.alt es) false = true) :
+    s3okAlts br es false = true := by
+  by_cases hh : isHardAny br es = true
+  · rw [s3ok] at h
+    simp only [isHard, hh, Bool.not_true, Bool.and_false, Bool.false_eq_true, ↓reduceIte, Bool.and_eq_true] at h
+    exact h.2
+  · exact s3okAlts_easy br es (by simpa using hh)
+
+theorem wrapPosLook_body_codeAt {prog : List Insn} {pc : Nat} {atomic : Bool} {slot k : Nat} {body : Code}
+    (h : CodeAt prog pc (wrapPosLook atomic true slot k body)) : CodeAt prog (posLookBodyPc atomic true pc) body := by
+  cases atomic with
+  | true =>
+    simp only [wrapPosLook, posLookBodyPc, ↓reduceIte] at h ⊢
+    exact h.left.right.left.right.cast (by addr)
+  | false =>
+    simp only [wrapPosLook, posLookBodyPc, ↓reduceIte, Bool.false_eq_true] at h ⊢
+    exact h.left.right.cast (by addr)
+
+theorem wrapNegLook_body_codeAt {prog : List Insn} {pc k : Nat} {body : Code}
+    (h : CodeAt prog pc (wrapNegLook true pc k body)) : CodeAt prog (negLookBodyPc true pc) body := by
+  simp only [wrapNegLook, negLookBodyPc, ↓reduceIte] at h ⊢
+  exact h.left.right.right.cast (by addr)
+
+/-- the positive look-behind layout (`wrapPosLook … true`) around the code `visit` emits for `e` in a
+    non-hard context: atomic layout when `e` is hard, plain layout around the `Delegate` otherwise.
+    Used for a non-alternation body, for every alternative of `lookBehindAlts`, and with `e = .alt es`
+    for an alternation body of one size. -/
+theorem sim3_posBehind_wrap (c : Ctx) (n nS : Nat) (br : Nat → Bool) (hlen : c.len < UNSET)
+    (e : Expr) (pc nsv gix : Nat) (code1 : Code) (nsv1 : Nat) (prog : List Insn)
+    (h3e : H3 n e gix) (hcf : condFree e = true)
+    (hb : visit br e false (posLookBodyPc (isHard br e) true pc) (nsv + 1) gix = .ok (code1, nsv1))
+    (hc : CodeAt prog pc (wrapPosLook (isHard br e) true nsv (minSize e) code1)) (hnn : n ≤ nsv)
+    (ih : SimOf3 c n nS prog (nsv + 1) nsv1 (condFree e) false (sem c e)
+      (posLookBodyPc (isHard br e) true pc) (posLookBodyPc (isHard br e) true pc + code1.length)) :
+    nsv + 1 ≤ nsv1 ∧ (nsv1 ≤ nS → ∀ cm, Sim2 c n nS prog nsv nsv1 true cm (posBehindOne c e) pc
+      (pc + (wrapPosLook (isHard br e) true nsv (minSize e) code1).length)) := by
+  obtain ⟨hle, ihs⟩ := ih
+  by_cases hh : isHard br e = true
+  · simp only [hh, wrapPosLook, posLookBodyPc, ↓reduceIte, Nat.add_zero] at hc hb ihs ⊢
+    refine ⟨hle, fun hnS cm => ?_⟩
+    have hbody := ihs hnS true (Or.inr rfl)
+    rw [hcf] at hbody
+    have hsave : prog[pc + 1]? = some (.save nsv) := hc.left.right.left.left.left.head_at (by addr)
+    have hback : prog[pc + 2]? = some (.goBack (minSize e)) := hc.left.right.left.left.right.head_at (by addr)
+    have hrestore : prog[pc + 3 + code1.length]? = some (.restore nsv) := hc.left.right.right.head_at (by addr)
+    have hend : prog[pc + 3 + code1.length + 1]? = some .endAtomic := hc.right.head_at (by addr)
+    have := sim2_posbehind_atomic (cm := cm) (body := sem c e) (slot := nsv) (hi := nsv1) (a := pc)
+      (m := pc + 3 + code1.length) (k := minSize e)
+      hc.left.left.head hsave hback hrestore hend hnn (by omega) (by omega) (by omega)
+      (hbody.cast (by omega) (by omega)) (keepsGood_sem c n e)
+    exact this.cast rfl (by addr)
+  · have hh' : isHard br e = false := by simpa using hh
+    simp only [hh', wrapPosLook, posLookBodyPc, ↓reduceIte, Bool.false_eq_true, Nat.add_zero] at hc hb ⊢
+    rw [visit_easy_eq br e false (pc + 1 + 1) (nsv + 1) gix (by simp [hh'])] at hb
+    simp only [Except.ok.injEq, Prod.mk.injEq] at hb
+    obtain ⟨rfl, rfl⟩ := hb
+    have hc1 : CodeAt prog (pc + 2) (compileDelegate e gix) := hc.left.right.cast (by addr)
+    refine ⟨Nat.le_refl _, fun hnS cm => ?_⟩
+    have hbody := sim3_one_first c n nS prog (nsv + 1) (nsv + 1) true cm br e gix (pc + 2) hlen h3e hh' hc1
+    have hback : prog[pc + 1]? = some (.goBack (minSize e)) := hc.left.left.right.head_at (by addr)
+    have hrestore : prog[pc + 2 + (compileDelegate e gix).length]? = some (.restore nsv) := hc.right.head_at (by addr)
+    have := sim2_posbehind_plain (cm := cm) (bal := true) (body := fun st => firstOnly (sem c e st)) (slot := nsv)
+      (hi := nsv + 1) (a := pc) (m := pc + 2 + (compileDelegate e gix).length) (k := minSize e)
+      hc.left.left.left.head hback hrestore hnn (by omega) (by omega) (by omega) hbody
+      (keepsGood_firstOnly (keepsGood_sem c n e)) (fun st => firstOnly_length_le_one _)
+    have := this.congr (g := posBehindOne c e) (fun st => by
+      unfold posBehindOne
+      rw [back_flatMap, back_flatMap]
+      split <;> simp [firstOnly_idem])
+    exact this.cast rfl (by addr)
+
+/-- the negative look-behind layout (`wrapNegLook true`) around the code of `e` -/
+theorem sim3_negBehind_wrap (c : Ctx) (n nS : Nat)
+    (e : Expr) (pc nsv : Nat) (code1 : Code) (nsv1 : Nat) (prog : List Insn)
+    (hc : CodeAt prog pc (wrapNegLook true pc (minSize e) code1))
+    (ih : SimOf3 c n nS prog nsv nsv1 (condFree e) false (sem c e)
+      (negLookBodyPc true pc) (negLookBodyPc true pc + code1.length)) :
+    nsv ≤ nsv1 ∧ (nsv1 ≤ nS → ∀ cm, Sim2 c n nS prog nsv nsv1 true cm (negBehindOne c e) pc
+      (pc + (wrapNegLook true pc (minSize e) code1).length)) := by
+  obtain ⟨hle, ihs⟩ := ih
+  simp only [wrapNegLook, negLookBodyPc, ↓reduceIte] at hc ihs ⊢
+  refine ⟨hle, fun hnS cm => ?_⟩
+  have hsplit : prog[pc]? = some (.split (pc + 1) (pc + 2 + code1.length + 1)) := by
+    have := hc.left.left.head
+    simpa [Nat.add_assoc, Nat.add_comm, Nat.add_left_comm] using this
+  have hback : prog[pc + 1]? = some (.goBack (minSize e)) := hc.left.right.left.head_at (by addr)
+  have hfail : prog[pc + 2 + code1.length]? = some .failNegLook := hc.right.head_at (by addr)
+  have := sim2_negbehind (cm := cm) (body := sem c e) (a := pc) (m := pc + 2 + code1.length) (k := minSize e)
+    hsplit hback hfail (by omega) hle ((ihs hnS true (Or.inr rfl)).cast (by omega) (by omega))
+  exact this.cast rfl (by addr)
+
 
 mutual
 theorem sim3_visit (c : Ctx) (n nS : Nat) (br : Nat → Bool) (hlen : c.len < UNSET) :
@@ -656,103 +763,133 @@ theorem sim3_visit (c : Ctx) (n nS : Nat) (br : Nat → Bool) (hlen : c.len < UN
       exact this.cast rfl (by addr)
   | .look e .behind, hard, pc, nsv, gix, code, nsv', prog, hok, h3, hv, hc, hnn => by
     rw [s3ok] at hok
-    simp only [isHard, Bool.not_true, Bool.and_false, Bool.false_eq_true, ↓reduceIte, Bool.and_eq_true,
-      Bool.not_eq_true'] at hok
-    obtain ⟨⟨⟨hoke, hcf⟩, hna⟩, hz⟩ := hok
+    simp only [isHard, Bool.not_true, Bool.and_false, Bool.false_eq_true, ↓reduceIte, Bool.and_eq_true] at hok
+    obtain ⟨⟨hoke, hcf⟩, hz⟩ := hok
     have h3e := h3.look
-    have hna' := isAlt_false_ne e hna
     have hw := h3e.ws
-    by_cases hcs : constSize e = true
-    · rw [C13_accept_behind_const br e hna' hcs] at hv
-      cases hb : visit br e false (posLookBodyPc (isHard br e) true pc) (nsv + 1) gix with
-      | error err => simp [hb] at hv
-      | ok p =>
-        obtain ⟨code1, nsv1⟩ := p
-        simp only [hb, Except.ok.injEq, Prod.mk.injEq] at hv
-        obtain ⟨rfl, rfl⟩ := hv
-        simp only [condFree, hcf]
-        by_cases hh : isHard br e = true
-        · have hsemeq : ∀ st, st.Good c n →
-              (firstOnly ((if minSize e ≤ st.ix then [({ st with ix := st.ix - minSize e } : St)] else []).flatMap (sem c e))).map
-                (fun r => ({ r with ix := st.ix } : St)) = sem c (.look e .behind) st := by
-            intro st hg
-            rw [C13_lookbehind_pos c n e hna' hw hcs hz st hg (by omega), back_flatMap]
-          simp only [hh, wrapPosLook, posLookBodyPc, ↓reduceIte, Nat.add_zero] at hc hb ⊢
-          have hc1 : CodeAt prog (pc + 3) code1 := hc.left.right.left.right.cast (by addr)
-          obtain ⟨hle, ih⟩ := sim3_visit c n nS br hlen e false (pc + 1 + 1 + 1) (nsv + 1) gix code1 _ prog hoke h3e hb hc1 (by omega)
+    cases hia : isAlt e with
+    | false =>
+      have hna' := isAlt_false_ne e hia
+      by_cases hcs : constSize e = true
+      · rw [C13_accept_behind_const br e hna' hcs] at hv
+        cases hb : visit br e false (posLookBodyPc (isHard br e) true pc) (nsv + 1) gix with
+        | error err => simp [hb] at hv
+        | ok p =>
+          obtain ⟨code1, nsv1⟩ := p
+          simp only [hb, Except.ok.injEq, Prod.mk.injEq] at hv
+          obtain ⟨rfl, rfl⟩ := hv
+          have ih := sim3_visit c n nS br hlen e false _ (nsv + 1) gix code1 _ prog hoke h3e hb
+            (wrapPosLook_body_codeAt hc) (by omega)
+          obtain ⟨hle, hs⟩ := sim3_posBehind_wrap c n nS br hlen e pc nsv gix code1 _ prog h3e hcf hb hc hnn ih
           refine ⟨by omega, fun hnS cm _ => ?_⟩
-          have hbody := ih hnS true (Or.inr rfl)
-          rw [hcf] at hbody
-          have hsave : prog[pc + 1]? = some (.save nsv) := hc.left.right.left.left.left.head_at (by addr)
-          have hback : prog[pc + 2]? = some (.goBack (minSize e)) := hc.left.right.left.left.right.head_at (by addr)
-          have hrestore : prog[pc + 3 + code1.length]? = some (.restore nsv) := hc.left.right.right.head_at (by addr)
-          have hend : prog[pc + 3 + code1.length + 1]? = some .endAtomic := hc.right.head_at (by addr)
-          have := sim2_posbehind_atomic (cm := cm) (body := sem c e) (slot := nsv) (hi := nsv1) (a := pc)
-            (m := pc + 3 + code1.length) (k := minSize e)
-            hc.left.left.head hsave hback hrestore hend hnn (by omega) (by omega) (by omega) hbody (keepsGood_sem c n e)
-          exact (this.congrGood hsemeq).cast rfl (by addr)
-        · have hh' : isHard br e = false := by simpa using hh
-          simp only [hh', wrapPosLook, posLookBodyPc, ↓reduceIte, Bool.false_eq_true, Nat.add_zero] at hc hb ⊢
-          rw [visit_easy_eq br e false (pc + 1 + 1) (nsv + 1) gix (by simp [hh'])] at hb
-          simp only [Except.ok.injEq, Prod.mk.injEq] at hb
-          obtain ⟨rfl, rfl⟩ := hb
-          have hc1 : CodeAt prog (pc + 2) (compileDelegate e gix) := hc.left.right.cast (by addr)
+          simp only [condFree, hcf]
+          exact (hs hnS cm).congrGood (fun st hg => sem_behind_one c n e hna' hw hcs hz st hg (by omega))
+      · have hcs' : constSize e = false := by simpa using hcs
+        rw [C13_accept_behind_not_const br e hna' hcs'] at hv
+        cases hv
+    | true =>
+      -- alternation body
+      obtain ⟨es, rfl⟩ := isAlt_true e hia
+      have hL := h3e.alt
+      have hwA := wellShaped_alt hw
+      have hcfA : condFreeAll es = true := by simpa only [condFree] using hcf
+      have hzA : noBareEndZAll es = true := by simpa only [noBareEndZ] using hz
+      rw [visit] at hv
+      simp only [isHard, Bool.not_true, Bool.and_false, Bool.false_eq_true, ↓reduceIte] at hv
+      by_cases hcs : constSize (.alt es) = true
+      · -- all alternatives of one size: the ordinary layout around the code of the alternation
+        simp only [hcs, Bool.not_true, Bool.false_eq_true, ↓reduceIte] at hv
+        rw [visitAltBody_eq_visit, show isHardAny br es = isHard br (.alt es) by simp only [isHard],
+          ← minSize_alt es] at hv
+        cases hb : visit br (.alt es) false (posLookBodyPc (isHard br (.alt es)) true pc) (nsv + 1) gix with
+        | error err => simp [hb] at hv
+        | ok p =>
+          obtain ⟨code1, nsv1⟩ := p
+          simp only [hb, Except.ok.injEq, Prod.mk.injEq] at hv
+          obtain ⟨rfl, rfl⟩ := hv
+          have ih := sim3_visit c n nS br hlen (.alt es) false _ (nsv + 1) gix code1 _ prog hoke h3e hb
+            (wrapPosLook_body_codeAt hc) (by omega)
+          obtain ⟨hle, hs⟩ := sim3_posBehind_wrap c n nS br hlen (.alt es) pc nsv gix code1 _ prog h3e hcf hb hc hnn ih
           refine ⟨by omega, fun hnS cm _ => ?_⟩
-          have hbody := sim3_one_first c n nS prog (nsv + 1) (nsv + 1) true cm br e gix (pc + 2) hlen h3e hh' hc1
-          have hback : prog[pc + 1]? = some (.goBack (minSize e)) := hc.left.left.right.head_at (by addr)
-          have hrestore : prog[pc + 2 + (compileDelegate e gix).length]? = some (.restore nsv) := hc.right.head_at (by addr)
-          have := sim2_posbehind_plain (cm := cm) (bal := true) (body := fun st => firstOnly (sem c e st)) (slot := nsv)
-            (hi := nsv + 1) (a := pc) (m := pc + 2 + (compileDelegate e gix).length) (k := minSize e)
-            hc.left.left.left.head hback hrestore hnn (by omega) (by omega) (by omega) hbody
-            (keepsGood_firstOnly (keepsGood_sem c n e)) (fun st => firstOnly_length_le_one _)
-          have hsemeq : ∀ st, st.Good c n →
-              (firstOnly ((if minSize e ≤ st.ix then [({ st with ix := st.ix - minSize e } : St)] else []).flatMap
-                (fun st => firstOnly (sem c e st)))).map
-                (fun r => ({ r with ix := st.ix } : St)) = sem c (.look e .behind) st := by
-            intro st hg
-            rw [C13_lookbehind_pos c n e hna' hw hcs hz st hg (by omega), back_flatMap]
-            split <;> simp [firstOnly_idem]
-          exact (this.congrGood hsemeq).cast rfl (by addr)
-    · have hcs' : constSize e = false := by simpa using hcs
-      rw [C13_accept_behind_not_const br e hna' hcs'] at hv
-      cases hv
+          simp only [condFree, hcfA]
+          exact (hs hnS cm).congrGood (fun st hg => sem_behind_alt_const c n es hwA.2 hcs hzA st hg (by omega))
+      · -- alternatives of different sizes: an atomic group around an alternation of look-behinds
+        have hcs' : constSize (.alt es) = false := by simpa using hcs
+        simp only [hcs', Bool.not_false, ↓reduceIte] at hv
+        cases hb : lookBehindAlts br es (pc + 1) nsv gix with
+        | error err => simp [hb] at hv
+        | ok p =>
+          obtain ⟨f, endPc, nsv1⟩ := p
+          simp only [hb, Except.ok.injEq, Prod.mk.injEq] at hv
+          obtain ⟨rfl, rfl⟩ := hv
+          have hlenf := lookBehindAlts_len br es (pc + 1) nsv gix f endPc _ hb endPc
+          have hcA := lookBehindAlts_ok_const br es _ _ _ _ hb
+          have hcb : CodeAt prog (pc + 1) (f endPc) := hc.left.right.cast (by addr)
+          obtain ⟨hle, hsim⟩ := sim3_lookBehindAlts c n nS br hlen es (pc + 1) nsv gix f endPc _ prog
+            (s3ok_alt_alts br es hoke) hcfA hL (by intro h; simp [h] at hwA) hb hnn hcb
+          refine ⟨hle, fun hnS cm _ => ?_⟩
+          have hend : prog[endPc]? = some .endAtomic := hc.right.head_at (by addr)
+          have := sim2_atomic (cm := cm) (a := pc) (m := endPc) hc.left.left.head hend (hsim hnS true)
+          have := this.congrGood (g := sem c (.look (.alt es) .behind))
+            (fun st hg => sem_behind_alt_diff c n es hwA.2 hcA hzA st hg (by omega))
+          simp only [condFree, hcfA]
+          exact this.cast rfl (by addr)
   | .look e .behindNeg, hard, pc, nsv, gix, code, nsv', prog, hok, h3, hv, hc, hnn => by
     rw [s3ok] at hok
-    simp only [isHard, Bool.not_true, Bool.and_false, Bool.false_eq_true, ↓reduceIte, Bool.and_eq_true,
-      Bool.not_eq_true'] at hok
-    obtain ⟨⟨hoke, hna⟩, hz⟩ := hok
+    simp only [isHard, Bool.not_true, Bool.and_false, Bool.false_eq_true, ↓reduceIte, Bool.and_eq_true] at hok
+    obtain ⟨hoke, hz⟩ := hok
     have h3e := h3.look
-    have hna' := isAlt_false_ne e hna
     have hw := h3e.ws
-    by_cases hcs : constSize e = true
-    · rw [C13_accept_behindNeg_const br e hna' hcs] at hv
-      cases hb : visit br e false (negLookBodyPc true pc) nsv gix with
-      | error err => simp [hb] at hv
-      | ok p =>
-        obtain ⟨code1, nsv1⟩ := p
-        simp only [hb, Except.ok.injEq, Prod.mk.injEq] at hv
-        obtain ⟨rfl, rfl⟩ := hv
-        simp only [wrapNegLook, negLookBodyPc, ↓reduceIte] at hc hb ⊢
-        have hc1 : CodeAt prog (pc + 2) code1 := hc.left.right.right.cast (by addr)
-        obtain ⟨hle, ih⟩ := sim3_visit c n nS br hlen e false (pc + 1 + 1) nsv gix code1 _ prog hoke h3e hb hc1 hnn
+    cases hia : isAlt e with
+    | false =>
+      have hna' := isAlt_false_ne e hia
+      by_cases hcs : constSize e = true
+      · rw [C13_accept_behindNeg_const br e hna' hcs] at hv
+        cases hb : visit br e false (negLookBodyPc true pc) nsv gix with
+        | error err => simp [hb] at hv
+        | ok p =>
+          obtain ⟨code1, nsv1⟩ := p
+          simp only [hb, Except.ok.injEq, Prod.mk.injEq] at hv
+          obtain ⟨rfl, rfl⟩ := hv
+          have ih := sim3_visit c n nS br hlen e false _ nsv gix code1 _ prog hoke h3e hb (wrapNegLook_body_codeAt hc) hnn
+          obtain ⟨hle, hs⟩ := sim3_negBehind_wrap c n nS e pc nsv code1 _ prog hc ih
+          refine ⟨hle, fun hnS cm _ => ?_⟩
+          exact ((hs hnS cm).congrGood (fun st hg => sem_behindNeg_one c n e hna' hw hcs hz st hg (by omega))).balTo
+            (fun _ => rfl)
+      · have hcs' : constSize e = false := by simpa using hcs
+        rw [C13_accept_behindNeg_not_const br e hna' hcs'] at hv
+        cases hv
+    | true =>
+      obtain ⟨es, rfl⟩ := isAlt_true e hia
+      have hL := h3e.alt
+      have hwA := wellShaped_alt hw
+      have hzA : noBareEndZAll es = true := by simpa only [noBareEndZ] using hz
+      rw [visit] at hv
+      simp only [isHard, Bool.not_true, Bool.and_false, Bool.false_eq_true, ↓reduceIte] at hv
+      by_cases hcs : constSize (.alt es) = true
+      · simp only [hcs, Bool.not_true, Bool.false_eq_true, ↓reduceIte] at hv
+        rw [visitAltBody_eq_visit, ← minSize_alt es] at hv
+        cases hb : visit br (.alt es) false (negLookBodyPc true pc) nsv gix with
+        | error err => simp [hb] at hv
+        | ok p =>
+          obtain ⟨code1, nsv1⟩ := p
+          simp only [hb, Except.ok.injEq, Prod.mk.injEq] at hv
+          obtain ⟨rfl, rfl⟩ := hv
+          have ih := sim3_visit c n nS br hlen (.alt es) false _ nsv gix code1 _ prog hoke h3e hb
+            (wrapNegLook_body_codeAt hc) hnn
+          obtain ⟨hle, hs⟩ := sim3_negBehind_wrap c n nS (.alt es) pc nsv code1 _ prog hc ih
+          refine ⟨hle, fun hnS cm _ => ?_⟩
+          exact ((hs hnS cm).congrGood (fun st hg => sem_behindNeg_alt_const c n es hwA.2 hcs hzA st hg (by omega))).balTo
+            (fun _ => rfl)
+      · -- alternatives of different sizes: a sequence of negative look-behinds
+        have hcs' : constSize (.alt es) = false := by simpa using hcs
+        simp only [hcs', Bool.not_false, ↓reduceIte] at hv
+        have hcA := lookBehindNegAlts_ok_const br es _ _ _ _ hv
+        obtain ⟨hle, hsim⟩ := sim3_lookBehindNegAlts c n nS br hlen es pc nsv gix code nsv' prog
+          (s3ok_alt_alts br es hoke) hL hv hnn hc
         refine ⟨hle, fun hnS cm _ => ?_⟩
-        have hsplit : prog[pc]? = some (.split (pc + 1) (pc + 2 + code1.length + 1)) := by
-          have := hc.left.left.head
-          simpa [Nat.add_assoc, Nat.add_comm, Nat.add_left_comm] using this
-        have hback : prog[pc + 1]? = some (.goBack (minSize e)) := hc.left.right.left.head_at (by addr)
-        have hfail : prog[pc + 2 + code1.length]? = some .failNegLook := hc.right.head_at (by addr)
-        have := sim2_negbehind (cm := cm) (body := sem c e) (a := pc) (m := pc + 2 + code1.length) (k := minSize e)
-          hsplit hback hfail (by omega) hle (ih hnS true (Or.inr rfl))
-        have hsemeq : ∀ st, st.Good c n →
-            (if ((if minSize e ≤ st.ix then [({ st with ix := st.ix - minSize e } : St)] else []).flatMap (sem c e)).isEmpty
-              then [st] else []) = sem c (.look e .behindNeg) st := by
-          intro st hg
-          rw [C13_lookbehind_neg c n e hna' hw hcs hz st hg (by omega), back_flatMap]
-        have := (this.congrGood hsemeq).balTo (b2 := condFree (.look e .behindNeg)) (fun _ => rfl)
-        exact this.cast rfl (by addr)
-    · have hcs' : constSize e = false := by simpa using hcs
-      rw [C13_accept_behindNeg_not_const br e hna' hcs'] at hv
-      cases hv
+        exact ((hsim hnS cm).congrGood (fun st hg => sem_behindNeg_alt_diff c n es hwA.2 hcA hzA st hg (by omega))).balTo
+          (fun _ => rfl)
   | .atomic e, hard, pc, nsv, gix, code, nsv', prog, hok, h3, hv, hc, hnn => by
     rw [s3ok] at hok
     simp only [isHard, Bool.not_true, Bool.and_false, Bool.false_eq_true, ↓reduceIte, Bool.and_eq_true] at hok
@@ -818,7 +955,7 @@ theorem sim3_visit (c : Ctx) (n nS : Nat) (br : Nat → Bool) (hlen : c.len < UN
           simp only [condFree]
           exact this.cast rfl (by addr)
 termination_by e => sizeOf e
-decreasing_by all_goals (simp_wf; try omega)
+decreasing_by all_goals (simp_wf; try (first | omega | (subst_vars; simp; try omega)))
 theorem sim3_visitMiddle (c : Ctx) (n nS : Nat) (br : Nat → Bool) (hlen : c.len < UNSET) :
     ∀ (es : List Expr) (take pc nsv gix : Nat) (code : Code) (nsv' : Nat) (prog : List Insn),
       s3okAll br es = true → H3L n es gix →
@@ -921,6 +1058,111 @@ theorem sim3_visitAlt (c : Ctx) (n nS : Nat) (br : Nat → Bool) (hlen : c.len <
           (by intro h; simp only [Bool.and_eq_true] at h; exact h.2)
         have := Sim2.alt2 (m := pc + 1 + c1.length) hsplit hcj (by simpa using s1') s2' (by omega) (by have := hlen2 endPc2; omega)
         exact this.congr (fun st => by simp [semAlt])
+termination_by es => sizeOf es
+decreasing_by all_goals (simp_wf; try omega)
+theorem sim3_lookBehindAlts (c : Ctx) (n nS : Nat) (br : Nat → Bool) (hlen : c.len < UNSET) :
+    ∀ (es : List Expr) (pc nsv gix : Nat) (f : Nat → Code) (endPc nsv' : Nat) (prog : List Insn),
+      s3okAlts br es false = true → condFreeAll es = true → H3L n es gix → es ≠ [] →
+      lookBehindAlts br es pc nsv gix = .ok (f, endPc, nsv') → n ≤ nsv → CodeAt prog pc (f endPc) →
+      nsv ≤ nsv' ∧ (nsv' ≤ nS → ∀ cm, Sim2 c n nS prog nsv nsv' true cm (posBehindAlts c es) pc endPc)
+  | [], pc, nsv, gix, f, endPc, nsv', prog, _, _, _, hne, _, _, _ => absurd rfl hne
+  | [e], pc, nsv, gix, f, endPc, nsv', prog, hok, hcf, hL, _, hv, hnn, hc => by
+    simp only [lookBehindAlts] at hv
+    simp only [s3okAlts, Bool.and_eq_true] at hok
+    simp only [condFreeAll, Bool.and_eq_true] at hcf
+    obtain ⟨h3e, _⟩ := hL.cons
+    by_cases hcs : constSize e = true
+    · simp only [hcs, Bool.not_true, Bool.false_eq_true, ↓reduceIte] at hv
+      cases hb : visit br e false (posLookBodyPc (isHard br e) true pc) (nsv + 1) gix with
+      | error err => simp [hb] at hv
+      | ok p =>
+        obtain ⟨c1, nsv1⟩ := p
+        simp only [hb, Except.ok.injEq, Prod.mk.injEq] at hv
+        obtain ⟨rfl, rfl, rfl⟩ := hv
+        have ih := sim3_visit c n nS br hlen e false _ (nsv + 1) gix c1 nsv1 prog hok.1 h3e hb
+          (wrapPosLook_body_codeAt hc) (by omega)
+        obtain ⟨hle, hs⟩ := sim3_posBehind_wrap c n nS br hlen e pc nsv gix c1 nsv1 prog h3e hcf.1 hb hc hnn ih
+        refine ⟨by omega, fun hnS cm => ?_⟩
+        exact (hs hnS cm).congr (fun st => by simp [posBehindAlts])
+    · simp [hcs] at hv
+  | e :: e2 :: es, pc, nsv, gix, f, endPc, nsv', prog, hok, hcf, hL, _, hv, hnn, hc => by
+    simp only [lookBehindAlts] at hv
+    simp only [s3okAlts, Bool.and_eq_true] at hok
+    simp only [condFreeAll, Bool.and_eq_true] at hcf
+    obtain ⟨h3e, hLs⟩ := hL.cons
+    by_cases hcs : constSize e = true
+    · simp only [hcs, Bool.not_true, Bool.false_eq_true, ↓reduceIte] at hv
+      cases hb : visit br e false (posLookBodyPc (isHard br e) true (pc + 1)) (nsv + 1) gix with
+      | error err => simp [hb] at hv
+      | ok p =>
+        obtain ⟨c1, nsv1⟩ := p
+        simp only [hb] at hv
+        cases hb2 : lookBehindAlts br (e2 :: es)
+            (pc + 1 + (wrapPosLook (isHard br e) true nsv (minSize e) c1).length + 1) nsv1 (gix + groupCount e) with
+        | error err => simp [hb2] at hv
+        | ok p2 =>
+          obtain ⟨f2, endPc2, nsv2⟩ := p2
+          simp only [hb2, Except.ok.injEq, Prod.mk.injEq] at hv
+          obtain ⟨rfl, rfl, rfl⟩ := hv
+          have hlen2 := lookBehindAlts_len br (e2 :: es) _ nsv1 _ f2 endPc2 nsv2 hb2 endPc2
+          have hcW : CodeAt prog (pc + 1) (wrapPosLook (isHard br e) true nsv (minSize e) c1) :=
+            hc.left.left.right.cast (by addr)
+          have hcj : prog[pc + 1 + (wrapPosLook (isHard br e) true nsv (minSize e) c1).length]? = some (.jmp endPc2) :=
+            hc.left.right.head_at (by addr)
+          have hc2 : CodeAt prog (pc + 1 + (wrapPosLook (isHard br e) true nsv (minSize e) c1).length + 1) (f2 endPc2) :=
+            hc.right.cast (by addr)
+          have ih := sim3_visit c n nS br hlen e false _ (nsv + 1) gix c1 nsv1 prog hok.1 h3e hb
+            (wrapPosLook_body_codeAt hcW) (by omega)
+          obtain ⟨hle1, s1⟩ := sim3_posBehind_wrap c n nS br hlen e (pc + 1) nsv gix c1 nsv1 prog h3e hcf.1 hb hcW hnn ih
+          obtain ⟨hle2, s2⟩ := sim3_lookBehindAlts c n nS br hlen (e2 :: es) _ nsv1 _ f2 endPc2 nsv2 prog
+            (by simp [s3okAlts, hok.2.1, hok.2.2]) (by simp [condFreeAll, hcf.2.1, hcf.2.2]) hLs (by simp) hb2 (by omega) hc2
+          refine ⟨by omega, fun hnS cm => ?_⟩
+          have hsplit : prog[pc]? = some (.split (pc + 1)
+              (pc + 1 + (wrapPosLook (isHard br e) true nsv (minSize e) c1).length + 1)) := hc.left.left.left.head
+          have s1' := (s1 (by omega) cm).widen (Nat.le_refl nsv) hle2
+          have s2' := (s2 hnS cm).widen (show nsv ≤ nsv1 by omega) (Nat.le_refl _)
+          have := Sim2.alt2 (m := pc + 1 + (wrapPosLook (isHard br e) true nsv (minSize e) c1).length) hsplit hcj s1' s2'
+            (by omega) (by omega)
+          exact this.congr (fun st => by simp [posBehindAlts])
+    · simp [hcs] at hv
+termination_by es => sizeOf es
+decreasing_by all_goals (simp_wf; try omega)
+theorem sim3_lookBehindNegAlts (c : Ctx) (n nS : Nat) (br : Nat → Bool) (hlen : c.len < UNSET) :
+    ∀ (es : List Expr) (pc nsv gix : Nat) (code : Code) (nsv' : Nat) (prog : List Insn),
+      s3okAlts br es false = true → H3L n es gix →
+      lookBehindNegAlts br es pc nsv gix = .ok (code, nsv') → n ≤ nsv → CodeAt prog pc code →
+      nsv ≤ nsv' ∧ (nsv' ≤ nS → ∀ cm, Sim2 c n nS prog nsv nsv' true cm (negBehindSeq c es) pc (pc + code.length))
+  | [], pc, nsv, gix, code, nsv', prog, _, _, hv, _, _ => by
+    simp only [lookBehindNegAlts, Except.ok.injEq, Prod.mk.injEq] at hv
+    obtain ⟨rfl, rfl⟩ := hv
+    exact ⟨Nat.le_refl _, fun _ cm => by
+      simpa [negBehindSeq] using (Sim2.nil c n nS prog nsv nsv true cm pc).congr (g := negBehindSeq c [])
+        (fun st => by simp [negBehindSeq])⟩
+  | e :: es, pc, nsv, gix, code, nsv', prog, hok, hL, hv, hnn, hc => by
+    simp only [lookBehindNegAlts] at hv
+    simp only [s3okAlts, Bool.and_eq_true] at hok
+    obtain ⟨h3e, hLs⟩ := hL.cons
+    by_cases hcs : constSize e = true
+    · simp only [hcs, Bool.not_true, Bool.false_eq_true, ↓reduceIte] at hv
+      cases hb : visit br e false (negLookBodyPc true pc) nsv gix with
+      | error err => simp [hb] at hv
+      | ok p =>
+        obtain ⟨c1, nsv1⟩ := p
+        simp only [hb] at hv
+        cases hb2 : lookBehindNegAlts br es (pc + (wrapNegLook true pc (minSize e) c1).length) nsv1 (gix + groupCount e) with
+        | error err => simp [hb2] at hv
+        | ok p2 =>
+          obtain ⟨c2, nsv2⟩ := p2
+          simp only [hb2, Except.ok.injEq, Prod.mk.injEq] at hv
+          obtain ⟨rfl, rfl⟩ := hv
+          have ih := sim3_visit c n nS br hlen e false _ nsv gix c1 nsv1 prog hok.1 h3e hb
+            (wrapNegLook_body_codeAt hc.left) hnn
+          obtain ⟨hle1, s1⟩ := sim3_negBehind_wrap c n nS e pc nsv c1 nsv1 prog hc.left ih
+          obtain ⟨hle2, s2⟩ := sim3_lookBehindNegAlts c n nS br hlen es _ nsv1 _ c2 nsv2 prog hok.2 hLs hb2 (by omega) hc.right
+          refine ⟨by omega, fun hnS cm => ?_⟩
+          have := (s1 (by omega) false).seq (s2 hnS cm) (keepsGood_negBehindOne c n e) hle1 hle2 (by omega) (by omega)
+          exact (this.congr (g := negBehindSeq c (e :: es)) (fun st => by simp [negBehindSeq])).cast rfl (by addr)
+    · simp [hcs] at hv
 termination_by es => sizeOf es
 decreasing_by all_goals (simp_wf; try omega)
 end
